@@ -53,6 +53,7 @@ func C19(r *core.Run) {
 	positionsCoverConsumed(r)
 	fmtDiffForms(r)
 	editsDisjoint(r)
+	attachedCommentOneLine(r)
 	renderedTextOpaque(r)
 	gapAgreement(r)
 }
